@@ -430,3 +430,52 @@ MUTANTS = [
     dict(name="gate-under-fExec", file="script/interpreter.cpp", find="            if (!env.allow_disabled_opcodes && (\n", replace="            if (fExec && !env.allow_disabled_opcodes && (\n", expect=["R01.7:gate-before-executed-test"]),
     dict(name="altstack-guard-dropped", file="script/interpreter.cpp", find="                    if (altstack.size() < 1)\n                        return set_error(serror, SCRIPT_ERR_INVALID_ALTSTACK_OPERATION);\n", replace="", expect=["R01.3:depth-covered=OP_FROMALTSTACK:altstack"]),
 ]
+
+
+def AUTO_MUTANTS(ctx):
+    """one under-guard and one over-guard mutant for every case group whose stack guard is tight and static"""
+    fb = ctx.facts
+    out = []
+    for fname, file in (("StepScript", "script/interpreter.cpp"), ("StepExtended", "debugger/interpreter.cpp")):
+        f = fb.fn(fname, file=file)
+        al = astq.aliases(f)
+        cfg = f.cfg()
+        sws = [s_ for s_ in S.find_switches(f) if any(p_[-1] == "opcode" for p_ in astq.paths(s_["cond"], al))]
+        if not sws:
+            continue
+        for g in S.case_groups(sws[0]):
+            labels = [nm for (nm, v, cn) in g.labels if v != "default"]
+            if not labels:
+                continue
+            nodes = list(g.nodes())
+            acc, pops, pushes, guards, dyn = stack_events(f, al, nodes)
+            for cont in ("stack", "altstack"):
+                g_c = [(N, n, err, d) for (c, N, n, err, d) in guards if c == cont]
+                if len(g_c) != 1 or g_c[0][0] is None:
+                    continue
+                if any(c == cont for (c, e, n) in dyn):
+                    continue
+                N, gn, err, d = g_c[0]
+                p_c = [n for (c, n) in pops if c == cont]
+                u_c = [n for (c, n) in pushes if c == cont]
+
+                def pd(node):
+                    return len([p_ for p_ in p_c if p_ is not node and cfg.dominates(p_, node)])
+
+                def ud(node):
+                    return len([u for u in u_c if cfg.dominates(u, node)])
+                needs = [k + pd(n) for (c, k, n) in acc if c == cont and not ud(n) and cfg.dominates(d, n)]
+                needs += [1 + pd(p_) for p_ in p_c if not ud(p_) and cfg.dominates(d, p_)]
+                if not needs or max(needs) != N:
+                    continue
+                lit = d["rhs"]
+                while lit is not None and lit.get("k") == "cast":
+                    lit = lit["e"]
+                if lit is None or lit.get("k") != "int" or lit.get("mac"):
+                    continue
+                fl = lit.get("f", f.file)
+                name = "/".join(x.split("::")[-1] for x in labels[:2])
+                if N >= 1:
+                    out.append(dict(name="auto:guard-1:%s:%s" % (name, cont), file=fl, edit=(lit["l"], lit["c"], str(N), str(N - 1)), expect=["R01.3:depth-covered="]))
+                out.append(dict(name="auto:guard+1:%s:%s" % (name, cont), file=fl, edit=(lit["l"], lit["c"], str(N), str(N + 1)), expect=["R01.3:not-over-guarded="]))
+    return out
